@@ -107,6 +107,8 @@ def check_property(pid, tier, keep=False):
     violations, undecided, notes, known_hits = [], [], [], []
     cov_functions, rewrite_log, breakdown, trusted, cmds, clauses = [], [], [], {}, [], {}
     cov_types = []
+    unref = [0]
+    stubs_used = []
     verus_s = 0.0
     smt_us = 0
     thorough_info = {}
@@ -137,8 +139,12 @@ def check_property(pid, tier, keep=False):
             smt_us += sum(x["time_us"] or 0 for x in fb)
             tr = U.scan_trusted(b)
             for k, v in tr.items():
+                if k == "unreferenced_prelude_stubs":
+                    unref[0] += v
+                    continue
                 trusted.setdefault(k, [])
                 trusted[k] += [x for x in v if x not in trusted[k]]
+            stubs_used += getattr(b, "stubs", [])
             if any("IN-EXTRACTED-BODY" in a for a in tr["assume"]) or tr["admit"]:
                 undecided.append("%s: assume/admit inside verified text: %s" % (uname, tr["assume"] + tr["admit"]))
             for k, v in U.clause_counts(b).items():
@@ -203,6 +209,8 @@ def check_property(pid, tier, keep=False):
             "checker_cmd": " ; ".join(cmds),
             "trusted_base": tb,
             "back_end": "Verus (Z3)",
+            "contracts_proved_in_other_units_and_assumed_here": sorted(set(stubs_used)),
+            "prelude_stubs_present_but_not_referenced_by_this_unit": unref[0],
             "explanation": "obligations = Verus verification units (functions and lemmas, each the conjunction of its ensures / call-site requires / loop invariants / decreases / safety conditions) generated from the unit files built from /repo's working tree on this run; discharged = those Z3 proved.",
             "clause_counts_in_extracted_functions": clauses,
             "functions_under_contract": [{k: f[k] for k in ("item", "file", "lines", "sha256", "match", "kind")} for f in cov_functions],
